@@ -292,7 +292,7 @@ def r_cb(ctx, prog, codecs):
             others = [o for o in f.all_insts() if o is not c and o.op == 'call' and o.callee is None and
                       is_field_load(tt.term(o.calleev), 'decoded_source_symbol_callback', None)]
             ctx.instance(R, not others, c, key + ':once', '%s has more than one source-callback call site' % f.name)
-    ctx.need(n >= 3, R, 'only %d call sites of decoded_source_symbol_callback found' % n)
+    ctx.need(n >= (3 if len(codecs) >= 3 else 1), R, 'only %d call sites of decoded_source_symbol_callback found' % n)
 
 
 def _mentions_phi_of(f, tt, v, call, depth=0):
